@@ -277,6 +277,9 @@ static void t_reset(void)
     memset(&TW.k128, PRIOR_BYTE, sizeof(TW.k128)); memset(&TW.k64, PRIOR_BYTE, sizeof(TW.k64));   /* uninitialised memory before set_tweaked_key */
     TW.ksoff = t_bs;
     if (t_ctr && !ctr_init(t_c, t_be, &TW.co)) engine_error("ctr init failed");
+    /* the stream starts at FF..FE: the lane counters of the first batch wrap, and winding them back at a tweak change
+     * inside the batch borrows through every byte */
+    if (t_ctr) { uint8_t c0[16]; memset(c0, 0xFF, 16); c0[t_bs - 1] = 0xFE; if (ctr_set_counter(t_c, &TW.co, c0, (unsigned)t_bs) != 1) engine_error("ctr set_counter failed"); }
 }
 
 /* The CTR kinds read the tweaked schedule at the start of the private context.  That
@@ -431,9 +434,9 @@ static void t_apply(int op, int check)
         r = ctr_encrypt(t_c, &TW.co, out, in, (size_t)o->a);
         for (i = 0; i < o->a; ++i) {
             if (TW.ksoff >= t_bs) {
-                if (check) { uint8_t cb[16]; memset(cb, 0, 16); ref_ctr_add(cb, t_bs, (uint64_t)TW.blocks); t_ref(0, cb, ks); }
+                if (check) { uint8_t cb[16]; memset(cb, 0xFF, 16); cb[t_bs - 1] = 0xFE; ref_ctr_add(cb, t_bs, (uint64_t)TW.blocks); t_ref(0, cb, ks); }
                 ++TW.blocks; TW.ksoff = 0;
-            } else if (check && i == 0) { uint8_t cb[16]; memset(cb, 0, 16); ref_ctr_add(cb, t_bs, (uint64_t)TW.blocks - 1); t_ref(0, cb, ks); }
+            } else if (check && i == 0) { uint8_t cb[16]; memset(cb, 0xFF, 16); cb[t_bs - 1] = 0xFE; ref_ctr_add(cb, t_bs, (uint64_t)TW.blocks - 1); t_ref(0, cb, ks); }
             if (check && out[i] != (uint8_t)(in[i] ^ ks[TW.ksoff])) {
                 t_report("ctr-stream-after-tweak-history", op, "byte %d of this call: got %02x, expected %02x = input xor E(key, last tweak %s)(counter %d)", i, out[i],
                          (uint8_t)(in[i] ^ ks[TW.ksoff]), hexs(TW.tweak, (size_t)t_bs), TW.blocks - 1);
